@@ -88,7 +88,7 @@ class _Tx(ast.NodeTransformer):
             if node.func.id == "implies":
                 return ast.BoolOp(op=ast.Or(), values=[ast.UnaryOp(op=ast.Not(), operand=node.args[0]), node.args[1]])
             if node.func.id == "forall":
-                lam = node.args[2]
+                lam = node.args[2]        # an optional 4th argument (SMT trigger) is ignored natively
                 k = lam.args.args[0].arg
                 gen = ast.GeneratorExp(elt=lam.body, generators=[ast.comprehension(
                     target=ast.Name(id=k, ctx=ast.Store()),
@@ -166,6 +166,10 @@ def check_call(contract, classes, args, fn=None, extra=None, label=""):
     if extra:
         defs.update(extra)
     env = dict(args)
+    for k_, factory in contract.get("native_spec_factories", {}).items():
+        defs[k_] = factory(env)
+    for g_, init in contract.get("ghost", {}).items():
+        env[g_] = eval(init, dict(defs), dict(env))
     ctor = contract.get("constructor")
     for r in contract.get("requires", []):
         try:
@@ -190,6 +194,8 @@ def check_call(contract, classes, args, fn=None, extra=None, label=""):
         must[exc] = eval_clause(cond, env, None, defs)
     failures = []
     call_args = [env[p] for p in contract["params"] if not p.startswith("ghost_")]
+    if contract.get("native_result_only"):
+        pass
     exc_name, result = None, None
     try:
         result = fn(*call_args)
@@ -257,3 +263,82 @@ def row_of(x, shape=(2,)):
     x = float(frac(x))
     return np.array([x, -x if len(shape) else x][: max(1, shape[0] if shape else 1)], dtype=float).reshape(shape) \
         if shape else np.float64(x)
+
+
+def concretize(contract, classes, model, mod=None):
+    """Turn a solver counter-model (as written by verify._model_value) into concrete Python arguments of the
+    real function.  Returns None when a parameter kind has no generic concretisation."""
+    if mod is None:
+        _, mod = real_function(contract["target"].split("::")[0] + "::" + contract["target"].split("::")[1].split(".")[0])
+    out = {}
+    for p, kind in contract["params"].items():
+        v = model.get(p)
+        if kind == "int":
+            out[p] = int(v)
+        elif kind == "bool":
+            out[p] = bool(v)
+        elif kind == "real":
+            out[p] = float(frac(v))
+        elif kind == "row":
+            out[p] = row_of(v)
+        elif kind == "str":
+            out[p] = str(v)
+        elif kind == "none":
+            out[p] = None
+        elif kind.startswith("seq["):
+            ek = kind[4:-1]
+            n = int(v["len"])
+            if n > 4096:
+                return None
+            items = list(v["items"]) + [v["items"][-1] if v["items"] else 0] * max(0, n - len(v["items"]))
+            items = items[:n]
+            out[p] = [int(x) if ek == "int" else float(frac(x)) if ek in ("real",) else row_of(x) if ek == "row" else x
+                      for x in items]
+        elif kind.startswith("tuple("):
+            ks = [k.strip() for k in kind[6:-1].split(",") if k.strip()]
+            if not all(k in ("int", "real", "bool") for k in ks):
+                return None
+            out[p] = tuple(int(x) if k == "int" else float(frac(x)) if k == "real" else bool(x) for k, x in zip(ks, v))
+        elif kind.startswith("obj:"):
+            cls = getattr(mod, kind[4:], None)
+            if cls is None:
+                return None
+            o = object.__new__(cls)
+            fields = classes.get(kind[4:], {}).get("fields", {})
+            for f, fk in fields.items():
+                fv = v.get(f) if isinstance(v, dict) else None
+                if fk == "int":
+                    setattr(o, f, int(fv))
+                elif fk == "bool":
+                    setattr(o, f, bool(fv))
+                elif fk == "seq[real]":
+                    n = int(fv["len"])
+                    if n > 4096:
+                        return None
+                    it = [float(frac(x)) for x in fv["items"]]
+                    setattr(o, f, (it + [it[-1] if it else 0.0] * n)[:n])
+                elif fk == "seq[row]":
+                    n = int(fv["len"])
+                    if n > 4096:
+                        return None
+                    it = [row_of(x) for x in fv["items"]]
+                    arr = np.zeros((n, 2))
+                    for i_, r_ in enumerate(it[:n]):
+                        arr[i_] = r_
+                    setattr(o, f, arr)
+                else:
+                    return None
+            out[p] = o
+        else:
+            return None
+    return out
+
+
+def replay_model(contract, classes, model):
+    """Replay a counter-model on the real function; returns the list of natively failing clauses (empty: the model
+    does not reproduce)."""
+    args = concretize(contract, classes, model)
+    if args is None:
+        return []
+    status, fails = check_call(contract, classes, args)
+    return fails if status == "violated" else []
